@@ -285,7 +285,11 @@ def batch_run(model_cls: Type[Model], parameters: Union[ParameterList, Dict[str,
                 results.append(data)
     else:
         with Pool(processes) as pool:
-            for data in pool.imap_unordered(run_model, skwargs_with_repetition):
+            pending = pool.imap_unordered(run_model, skwargs_with_repetition)
+            for _ in skwargs_with_repetition:
+                # One result per run. An error raised by a run (a StopIteration included, which a plain for-loop over
+                # the iterator would take for the end of the results) propagates to the caller.
+                data = next(pending)
                 if data is not None:
                     results.append(data)
 
